@@ -26,6 +26,7 @@ mod c20;
 mod mac;
 mod oracle;
 mod macgen;
+mod macsuites;
 mod util;
 
 fn eval(op: &str) -> String {
